@@ -13,6 +13,7 @@ Written from the specification text and the property statement (C04), not from t
 """
 import z3
 from pyvc.values import *
+from pyvc.values import LEMMA_HOOKS
 from pyvc.symexec import attr0, fun_id
 from pyvc.classtable import table
 
@@ -42,7 +43,7 @@ Dir_raises = z3.Function('Dir_raises', V, V, BoolS)       # post-input-coercion 
 Dir_val = z3.Function('Dir_val', V, V, V)
 EnumHook_raises = z3.Function('EnumHook_raises', V, V, BoolS)   # enum value's hook chain (enum_value.input_coercer)
 EnumHook_val = z3.Function('EnumHook_val', V, V, V)
-DefLit_tag = z3.Function('DefLit_tag', V, IntS)           # literal coercion of an input field's default: 0 ok / 1 err / 2 absent(UNDEFINED)
+DefLit_ok = z3.Function('DefLit_ok', V, BoolS)            # literal coercion of an input field's default value succeeds
 DefLit_val = z3.Function('DefLit_val', V, V)
 Opaque_ok = z3.Function('Opaque_ok', V, V, BoolS)
 Opaque_val = z3.Function('Opaque_val', V, V, V)
@@ -151,7 +152,7 @@ z3.RecAddDefinition(AllOk, [_b, _items, _k], z3.If(_k <= 0, True, z3.And(AllOk(_
 z3.RecAddDefinition(Vals, [_b, _items, _k], z3.If(_k <= 0, VL.nil, snoc(Vals(_b, _items, _k - 1), Sem_val(_b, nth(_items, _k - 1)))))
 # one declared field against the provided value (Undef = key absent from the JSON object)
 z3.RecAddDefinition(F_tag, [_f, _j], z3.If(_j == V.Undef,
-    z3.If(attr0(_f, 'default_value') != V.None_, DefLit_tag(_f),
+    z3.If(attr0(_f, 'default_value') != V.None_, z3.If(DefLit_ok(_f), 0, 1),
           z3.If(is_non_null_type(attr0(_f, 'graphql_type')), 1, 2)),
     z3.If(Sem_ok(denote(attr0(_f, 'input_coercer')), _j), 0, 1)))
 z3.RecAddDefinition(F_val, [_f, _j], z3.If(_j == V.Undef, DefLit_val(_f), Sem_val(denote(attr0(_f, 'input_coercer')), _j)))
@@ -176,6 +177,32 @@ z3.RecAddDefinition(Known, [_jit, _fields, _k], z3.If(_k <= 0, True,
     z3.And(Known(_jit, _fields, _k - 1), lookup(_fields, V.fst(nth(_jit, _k - 1))) != V.Missing)))
 
 
-# ---- the JSON value universe (is_valid of `variables` payloads): null, bool, int, float, str, lists and string-keyed maps
-def json_leaf(j):
-    return z3.Or(j == V.None_, V.is_Bool(j), V.is_Int(j), z3.And(V.is_Float(j), wf_float(j)), V.is_Str(j), V.is_List(j), V.is_Dict(j))
+# ---- the JSON value universe (is_valid of `variables` payloads): null, bool, int, float, str, lists, string-keyed maps
+JsonWf = z3.RecFunction('JsonWf', V, BoolS)
+JsonListWf = z3.RecFunction('JsonListWf', VL, BoolS)
+JsonItemsWf = z3.RecFunction('JsonItemsWf', VL, BoolS)
+_v = z3.Const('v_', V)
+_vl = z3.Const('vl_', VL)
+z3.RecAddDefinition(JsonWf, [_v], z3.And(_v != V.Undef, _v != V.Missing, z3.Not(V.is_Pair(_v)),
+                                          z3.Implies(V.is_Float(_v), wf_float(_v)),
+                                          z3.Implies(V.is_List(_v), JsonListWf(V.items(_v))),
+                                          z3.Implies(V.is_Dict(_v), JsonItemsWf(V.ditems(_v)))))
+z3.RecAddDefinition(JsonListWf, [_vl], z3.If(VL.is_nil(_vl), True, z3.And(JsonWf(VL.hd(_vl)), JsonListWf(VL.tl(_vl)))))
+z3.RecAddDefinition(JsonItemsWf, [_vl], z3.If(VL.is_nil(_vl), True,
+                                               z3.And(V.is_Pair(VL.hd(_vl)), V.is_Str(V.fst(VL.hd(_vl))), JsonWf(V.snd(VL.hd(_vl))), JsonItemsWf(VL.tl(_vl)))))
+
+
+def _json_lemmas(e, n):
+    """instances of: JsonListWf(l) & 0<=k<len => JsonWf(nth(l,k)) ; JsonItemsWf(l) => lookup(l,k) is Missing or JsonWf ;
+    JsonItemsWf(l) & 0<=k<len => nth(l,k) is a (str, JsonWf) pair.  (each provable by induction on l; see pyvc/listlib.py)"""
+    if n == 'nth':
+        l, k = e.arg(0), e.arg(1)
+        return [z3.Implies(z3.And(JsonListWf(l), k >= 0, k < length(l)), JsonWf(e)),
+                z3.Implies(z3.And(JsonItemsWf(l), k >= 0, k < length(l)), z3.And(V.is_Pair(e), V.is_Str(V.fst(e)), JsonWf(V.snd(e))))]
+    if n == 'lookup':
+        l = e.arg(0)
+        return [z3.Implies(JsonItemsWf(l), z3.Or(e == V.Missing, JsonWf(e)))]
+    return []
+
+
+LEMMA_HOOKS.append(_json_lemmas)
